@@ -39,5 +39,5 @@ func (e ArrayItemTupleExpr) Eval(ctx context.Context, local Scope) (_ Value, err
 	if err != nil {
 		return nil, WrapContextErr(err, e, local)
 	}
-	return NewArrayItemTuple(int(at.(Number).Float64()), value), nil
+	return NewTuple(NewAttr("@", at), NewAttr(ArrayItemAttr, value)), nil
 }
